@@ -476,6 +476,14 @@ class Exec(object):
                 k = self.ev(p, sl.lower); self.oblig(p, 'slice-nonneg:%d' % e.lineno, 'subset', k.z >= 0, e.lineno)
                 return SV(WORD, T.drop(k.z, o.z))
         if o.t.kind == 'list' and sl.lower is None and sl.upper is None: return o
+        if o.t.kind == 'list' and sl.upper is None and isinstance(sl.lower, ast.Constant) and isinstance(sl.lower.value, int) and sl.lower.value >= 0 and not self.has_bound_vars():
+            # l[k:] for a literal k >= 0: the list without its first k elements (empty when it is shorter)
+            k = sl.lower.value; ln = list_len(o)
+            tl = fresh_z('tail', z3.ArraySort(z3.IntSort(), sort_of(o.t.args[0])))
+            r = mk_list(o.t, If(ln >= k, ln - k, IntVal(0)), tl)
+            i = fresh_z('i', z3.IntSort())
+            self.assume(p, ForAll([i], Implies(And(0 <= i, i < ln - k), Select(tl, i) == Select(list_arr(o), i + k)), patterns=[Select(tl, i)]))
+            return r
         raise Unsupported('slice on %s' % o.t)
 
     @staticmethod
@@ -1246,13 +1254,12 @@ class Exec(object):
         # 2b. exceptional exit of the callee: it raises exactly when its `raises` condition holds; the exception propagates (no handler in the
         #     verified subset), so it must be justified by the caller's own `raises` condition; the path continues with the normal return
         if c.raises is not None:
-            if self.has_bound_vars(): raise Unsupported('call of %s (may raise) under binders' % c.name)
             rc = self.truth(self.ev_spec_in(p, c.raises, dict(args)))
             if self.c.raises is not None:
                 self.oblig(p, 'call-%s-raise-justified:%d' % (c.name, line), 'post', Implies(rc, self.raises_cond(p, c.name)), line)
             else:
                 self.oblig(p, 'call-%s-does-not-raise:%d' % (c.name, line), 'safety', Not(rc), line)
-            p.pc.append(Not(rc))
+            self.assume(p, Not(rc))        # under comprehension binders: for every element (the comprehension evaluates the call for each of them)
         # 3. result and post-state
         if c.pure:
             key = ','.join(args[n].t.key for n in c.params)
